@@ -145,3 +145,62 @@ package dastard
 //@   ensures inactive: !old(s.isSourceActive) ==> result != nil && sends == 0
 //@   ensures queued: old(s.isSourceActive) ==> sends == 1
 //@   modifies nothing
+
+// ---- serialisation: the RPC handlers themselves never touch the running source ----
+// Each handler may call only read-only queries of the active source directly; every state-changing call has to
+// be inside the closure it queues (restriction-only contracts: no frame, no safety obligations).
+//@ func (*SourceControl).ConfigureTriggers
+//@   props C11
+//@   nosafety
+//@   opt noframe
+//@   opt queued_only DataSource
+//@ func (*SourceControl).ConfigureProjectorsBasis
+//@   props C11
+//@   nosafety
+//@   opt noframe
+//@   opt queued_only DataSource
+//@ func (*SourceControl).ConfigurePulseLengths
+//@   props C11
+//@   nosafety
+//@   opt noframe
+//@   opt queued_only DataSource WritingIsActive
+//@ func (*SourceControl).WriteControl
+//@   props C11
+//@   nosafety
+//@   opt noframe
+//@   opt queued_only DataSource
+//@ func (*SourceControl).SetExperimentStateLabel
+//@   props C11
+//@   nosafety
+//@   opt noframe
+//@   opt queued_only DataSource
+//@ func (*SourceControl).WriteComment
+//@   props C11
+//@   nosafety
+//@   opt noframe
+//@   opt queued_only DataSource
+//@ func (*SourceControl).CoupleErrToFB
+//@   props C11
+//@   nosafety
+//@   opt noframe
+//@   opt queued_only DataSource
+//@ func (*SourceControl).CoupleFBToErr
+//@   props C11
+//@   nosafety
+//@   opt noframe
+//@   opt queued_only DataSource
+//@ func (*SourceControl).changeGroupTriggerCoupling
+//@   props C11
+//@   nosafety
+//@   opt noframe
+//@   opt queued_only DataSource
+//@ func (*SourceControl).StopTriggerCoupling
+//@   props C11
+//@   nosafety
+//@   opt noframe
+//@   opt queued_only DataSource
+//@ func (*SourceControl).StoreRawDataBlock
+//@   props C11
+//@   nosafety
+//@   opt noframe
+//@   opt queued_only DataSource
